@@ -9,7 +9,13 @@
  *   VSHIM_CRASHFLAG=path      created at the crash; every other process dies at its next mutating call
  *   VSHIM_SIGNAL=key:k:signo  process `key` receives signal signo just before its k-th mutating call (raise(): the program's own
  *                             handler runs at that instant, e.g. qmail-queue's 24 h alarm)
- *   VSHIM_FAULT=key:class:k:errno|short   k-th call of class fails
+ *   VSHIM_SWAPOPEN=key|substr|src  right after the first successful open() of a path containing `substr` the file `src` is renamed over
+ *                             that path - what another process could do between this program's open() and its next system call
+ *   VSHIM_PAUSE=key|substr|n  (driven programs only) just before the n-th open() of a path containing `substr` the process reports
+ *                             "P <path>" on its control socket and waits for a byte from the driver; signals sent meanwhile run their
+ *                             handlers at that instant (a breakpoint inside the daemon's work, e.g. in the middle of reread())
+ *   VSHIM_FAULT=key:class:k:errno|short   k-th call of class fails ("errno+": that call and every later one of the class fail - a condition
+ *                             that persists, e.g. a full descriptor table)
  *   VSHIM_CRASH_GEN=n, VSHIM_FAULT_GEN=n  (optional) the crash/fault spec applies only to processes that are n fork()s
  *                             away from their last exec (0 = the exec'd program itself, 1 = its not-exec'd fork child, ...);
  *                             needed because counters restart at 0 in a fork child that keeps the parent's key
@@ -56,11 +62,13 @@ static char key[160];
 static const char *home, *qmailhome;
 static char crash_key[160]; static long crash_k = -1;
 static const char *crashflag;
-static char fault_key[160], fault_class[32]; static long fault_k = -1; static int fault_errno; static int fault_short;
+static char fault_key[160], fault_class[32]; static long fault_k = -1; static int fault_errno; static int fault_short; static int fault_persist;
 static long mutcount;
 static long classcount[32];
 static long forkgen; static long crash_gen = -1, fault_gen = -1;
 static char sig_key[128]; static long sig_k = -1; static int sig_no;
+static char pause_key[128], pause_sub[200]; static long pause_n = -1, pause_seen;
+static char swap_key[128], swap_sub[300], swap_src[600]; static int swap_done;
 static volatile long long *clockoff;
 static int drive; static int ctlfd = -1; static const char *ctlpath;
 static const char *gatepath; static int gatefd = -1; static pid_t gatepid;
@@ -69,7 +77,7 @@ static int in_shim;
 
 static int cred_set; static long cred_uid = -1, cred_gid = -1; static char cred_groups[128] = "";
 
-static const char *classes[] = {"open","read","write","fsync","link","unlink","stat","utimes","close","ftruncate","rename","flock","mkdir","opendir","lseek","fork","pipe","exec","pwrite","fstat","chdir","readdir","setuid","setgid","setgroups",0};
+static const char *classes[] = {"open","read","write","fsync","link","unlink","stat","utimes","close","ftruncate","rename","flock","mkdir","opendir","lseek","fork","pipe","exec","pwrite","fstat","chdir","readdir","setuid","setgid","setgroups","socket",0};
 static int classidx(const char *c) { int i; for (i = 0; classes[i]; ++i) if (!strcmp(classes[i], c)) return i; return 31; }
 
 static int keymatch(const char *spec)
@@ -115,6 +123,12 @@ static void init(void)
   s = getenv("VSHIM_SIGNAL");
   if (s) { char b[200], *p, *q; snprintf(b, sizeof b, "%s", s); p = strchr(b, ':');
            if (p) { *p++ = 0; q = strchr(p, ':'); if (q) { *q++ = 0; snprintf(sig_key, sizeof sig_key, "%s", b); sig_k = atol(p); sig_no = atoi(q); } } }
+  s = getenv("VSHIM_PAUSE");
+  if (s) { char b[400], *p, *q; snprintf(b, sizeof b, "%s", s); p = strchr(b, '|');
+           if (p) { *p++ = 0; q = strchr(p, '|'); if (q) { *q++ = 0; snprintf(pause_key, sizeof pause_key, "%s", b); snprintf(pause_sub, sizeof pause_sub, "%s", p); pause_n = atol(q); } } }
+  s = getenv("VSHIM_SWAPOPEN");
+  if (s) { char b[1100], *p, *q; snprintf(b, sizeof b, "%s", s); p = strchr(b, '|');
+           if (p) { *p++ = 0; q = strchr(p, '|'); if (q) { *q++ = 0; snprintf(swap_key, sizeof swap_key, "%s", b); snprintf(swap_sub, sizeof swap_sub, "%s", p); snprintf(swap_src, sizeof swap_src, "%s", q); } } }
   s = getenv("VSHIM_CRASH_GEN"); if (s && *s) crash_gen = atol(s);
   s = getenv("VSHIM_FAULT_GEN"); if (s && *s) fault_gen = atol(s);
   s = getenv("VSHIM_FAULT");
@@ -124,7 +138,7 @@ static void init(void)
     p = strchr(b, ':'); if (p) { *p++ = 0; snprintf(fault_key, sizeof fault_key, "%s", b);
       q = strchr(p, ':'); if (q) { *q++ = 0; snprintf(fault_class, sizeof fault_class, "%s", p);
         p = strchr(q, ':'); if (p) { *p++ = 0; fault_k = atol(q);
-          if (!strcmp(p, "short")) fault_short = 1; else fault_errno = atoi(p); } } }
+          if (!strcmp(p, "short")) fault_short = 1; else { fault_errno = atoi(p); if (strchr(p, '+')) fault_persist = 1; } } } }
   }
   s = getenv("VSHIM_CLOCK");
   if (s) { REAL(open); int fd = real_open(s, O_RDONLY | O_CLOEXEC);
@@ -201,6 +215,9 @@ static void tr(const char *fmt, ...)
   errno = e;
 }
 
+/* the interposer's own sockets bypass the interposed socket() below */
+static int shim_socket(int d, int t, int p) { REAL(socket); return real_socket(d, t, p); }
+
 /* ------------------------------------------------------------------ gate mode */
 
 static int gate_connect(void)
@@ -208,7 +225,7 @@ static int gate_connect(void)
   struct sockaddr_un sa; REAL(close);
   if (gatefd >= 0 && gatepid == getpid()) return gatefd;
   if (gatefd >= 0) { real_close(gatefd); gatefd = -1; }
-  gatefd = socket(AF_UNIX, SOCK_STREAM | SOCK_CLOEXEC, 0);
+  gatefd = shim_socket(AF_UNIX, SOCK_STREAM | SOCK_CLOEXEC, 0);
   if (gatefd < 0) return -1;
   if (gatefd < 200) { int n = fcntl(gatefd, F_DUPFD_CLOEXEC, 210); if (n >= 0) { real_close(gatefd); gatefd = n; } }
   memset(&sa, 0, sizeof sa); sa.sun_family = AF_UNIX; snprintf(sa.sun_path, sizeof sa.sun_path, "%s", gatepath);
@@ -311,7 +328,8 @@ static int maybe_fault(const char *cls)
   int ci = classidx(cls); long c = classcount[ci]++;
   if (fault_k < 0 || strcmp(cls, fault_class) || !keymatch(fault_key)) return 0;
   if (fault_gen >= 0 && fault_gen != forkgen) return 0;
-  if (c != fault_k) return 0;
+  if (fault_persist ? c < fault_k : c != fault_k) return 0;     /* "errno+": the condition persists (every call from the k-th on fails) */
+  if (fault_persist) { errno = fault_errno; return 1; }
   { /* exactly one fault per run, also across the processes that share the key */
     const char *once = getenv("VSHIM_FAULTONCE");
     if (once) { REAL(open); REAL(close); int fd = real_open(once, O_WRONLY | O_CREAT | O_EXCL, 0644); if (fd < 0) return 0; real_close(fd); }
@@ -328,6 +346,24 @@ static const char *mappath(const char *p, char *buf, size_t n)
   l = strlen(qmailhome);
   if (!strncmp(p, qmailhome, l) && (p[l] == 0 || p[l] == '/')) { snprintf(buf, n, "%s%s", home, p + l); return buf; }
   return p;
+}
+
+static int ctl_connect(void);
+static void maybe_pause(const char *path)
+{
+  REAL(write); REAL(read); char msg[700]; int n; char ch;
+  if (pause_n < 0 || !drive || !keymatch(pause_key) || !strstr(path, pause_sub)) return;
+  if (pause_seen++ != pause_n) return;
+  if (ctl_connect() < 0) return;
+  tr("PAUSE\t%s", path);
+  n = snprintf(msg, sizeof msg, "P %s\n", path);
+  if (real_write(ctlfd, msg, n) != n) raise(SIGKILL);
+  for (;;) {
+    ssize_t k = real_read(ctlfd, &ch, 1);
+    if (k == 1) break;
+    if (k < 0 && errno == EINTR) continue;      /* a signal handler ran: exactly what the driver wanted */
+    raise(SIGKILL);
+  }
 }
 
 /* ------------------------------------------------------------------ filesystem calls */
@@ -367,11 +403,17 @@ int open(const char *path, int flags, ...)
   esc(e, sizeof e, path);
   if (gated_path(path)) gate("REQ", "open", path);
   if (is_mut_open(flags)) maybe_crash("open", e);
+  maybe_pause(path);
   f = maybe_fault("open");
   if (f == 1) { tr("open\t%s\t%d\t-1\t%d\tFAULT", e, flags, errno); return -1; }
   r = real_open(path, flags, mode);
   if (r >= 0 && r < 1024) fdwr[r] = is_mut_open(flags) ? 1 : 0;
   tr("open\t%s\t%d\t%d\t%d", e, flags, r, r < 0 ? errno : 0);
+  if (r >= 0 && swap_src[0] && !swap_done && keymatch(swap_key) && strstr(path, swap_sub)) {
+    REAL(rename); int e2 = errno; swap_done = 1;
+    tr("SWAP\t%s\t%d", e, real_rename(swap_src, path));
+    errno = e2;
+  }
   return r;
 }
 
@@ -825,6 +867,15 @@ pid_t fork(void)
   return r;
 }
 
+int socket(int d, int t, int p)
+{
+  REAL(socket); int r; init();
+  if (maybe_fault("socket") == 1) { tr("socket\t%d\t-1\t%d\tFAULT", d, errno); return -1; }
+  r = real_socket(d, t, p);
+  tr("socket\t%d\t%d", d, r);
+  return r;
+}
+
 int pipe(int fds[2])
 {
   REAL(pipe); int r; init();
@@ -853,7 +904,7 @@ static int ctl_connect(void)
 {
   struct sockaddr_un sa; REAL(close);
   if (ctlfd >= 0) return ctlfd;
-  ctlfd = socket(AF_UNIX, SOCK_STREAM | SOCK_CLOEXEC, 0);
+  ctlfd = shim_socket(AF_UNIX, SOCK_STREAM | SOCK_CLOEXEC, 0);
   if (ctlfd < 0) return -1;
   if (ctlfd < 200) { int n = fcntl(ctlfd, F_DUPFD_CLOEXEC, 220); if (n >= 0) { real_close(ctlfd); ctlfd = n; } }
   memset(&sa, 0, sizeof sa); sa.sun_family = AF_UNIX; snprintf(sa.sun_path, sizeof sa.sun_path, "%s", ctlpath);
